@@ -8,9 +8,13 @@ CHECKS['C03'] = {
     'rule': 'todo',
     'assumptions': [],
     'units': [
-        unit('get', 'keepclient_c03', '^TestVerifC03Get$', {'shards': 5, 'checks': 300}, {'shards': 6, 'checks': 15000, 'timeout': 1500}),
+        unit('get', 'keepclient_c03', '^TestVerifC03Get$', {'shards': 5, 'checks': 300}, {'shards': 5, 'checks': 15000, 'timeout': 1500}),
         unit('cache', 'keepclient_c03', '^TestVerifC03Cache$', {'shards': 4, 'checks': 200}, {'shards': 4, 'checks': 8000, 'timeout': 1500}),
-        unit('file', 'keepclient_c03', '^TestVerifC03File$', {'shards': 4, 'checks': 200}, {'shards': 4, 'checks': 8000, 'timeout': 1500}),
-        unit('conc', 'keepclient_c03', '^TestVerifC03Concurrent$', {'shards': 2, 'checks': 200}, {'shards': 2, 'checks': 8000, 'timeout': 1500}),
+        unit('cacheU', 'keepclient_c03', '^TestVerifC03Cache$', {'shards': 1, 'checks': 25}, {'shards': 1, 'checks': 400, 'timeout': 1500},
+             env={'C03_UNSIZED_PCT': '40'}),
+        unit('file', 'keepclient_c03', '^TestVerifC03File$', {'shards': 3, 'checks': 300}, {'shards': 3, 'checks': 10000, 'timeout': 1500}),
+        unit('conc', 'keepclient_c03', '^TestVerifC03Concurrent$', {'shards': 2, 'checks': 150}, {'shards': 2, 'checks': 6000, 'timeout': 1500}),
+        unit('race', 'keepclient_c03', '^TestVerifC03Race$', {'shards': 1, 'checks': 25}, {'shards': 1, 'checks': 600, 'timeout': 1500},
+             race=True),
     ],
 }
